@@ -53,6 +53,17 @@ class C09(ProgramProperty):
                         other = rng.choice(earlier)
                         new["us"] = new["us"] + [other["u"]]
                         kinds.append("bridge")
+                if rng.random() < 0.2 and len(earlier) > 1:
+                    # a record made *entirely* of known material, spread over two earlier records
+                    x, y = rng.sample(earlier, 2)
+                    how = rng.choice(["pfx-x-uri-y", "syn-y", "usyn-y"])
+                    if how == "pfx-x-uri-y":
+                        new = rec(uncps(x["p"]), uncps(y["u"]))
+                    elif how == "syn-y":
+                        new = rec(uncps(x["p"]), uncps(x["u"]), [uncps(y["p"])])
+                    else:
+                        new = rec(uncps(x["p"]), uncps(x["u"]), [], [uncps(y["u"])])
+                    kinds.append("bridge-known-material:" + how)
                 base.append(new)
             # keep each input strict
             seen_p, seen_u, ok = set(), set(), []
